@@ -16,6 +16,8 @@ tier, seed, only, jobs = opt("--tier", "quick"), opt("--seed", "1"), opt("--only
 def one(name):
     d = os.path.join(VERIF, "seeded", name)
     meta = json.load(open(os.path.join(d, "meta.json")))
+    if meta.get("stale"):
+        return [(name, meta["property"], "STALE", "recorded: " + meta["stale"][:150])]
     checks = meta.get("checks") or [meta["property"]]
     wt = tempfile.mkdtemp(prefix="seedwt-%s-" % name)
     os.rmdir(wt)
